@@ -10,7 +10,9 @@ import (
 	"io"
 	"math"
 	"net"
+	"os"
 	"sort"
+	"strings"
 	"time"
 
 	"github.com/refraction-networking/uquic/internal/handshake"
@@ -19,7 +21,12 @@ import (
 	"github.com/refraction-networking/uquic/internal/wire"
 )
 
-func init() { units["tokens"] = runTokens }
+func init() {
+	units["tokens"] = runTokens
+	genSources = append(genSources, func() [][2]any {
+		return [][2]any{{"TK_Revision", int64(handshake.VerifSessionTicketRevision)}}
+	})
+}
 
 // ---------------------------------------------------------------------------------------
 // tokens unit (C08, monitor-only: AES-GCM, HKDF and encoding/asn1 are oracles, no model):
@@ -51,6 +58,9 @@ type tkGen struct {
 	tg   *handshake.TokenGenerator
 	key  handshake.TokenProtectorKey
 	info map[string]int
+	// session-ticket correspondence cases
+	tkSeen map[string]bool
+	tkMax  int
 }
 
 func (g *tkGen) monfail(key, desc, detail string) {
@@ -296,7 +306,36 @@ func (g *tkGen) ticketUnmarshal(b []byte) (p *wire.TransportParameters, err erro
 	c := make([]byte, len(b))
 	copy(c, b)
 	p, err = handshake.VerifTicketUnmarshal(c)
+	g.ticketCase(b, p, err)
 	return p, err, true
+}
+
+// one correspondence case per distinct Unmarshal input (model: coq/Wire/Tickets.v)
+func (g *tkGen) ticketCase(b []byte, p *wire.TransportParameters, err error) {
+	if g.tkSeen == nil {
+		g.tkSeen = map[string]bool{}
+	}
+	if g.tkSeen[string(b)] || len(g.tkSeen) >= g.tkMax || len(b) > 600 {
+		return
+	}
+	g.tkSeen[string(b)] = true
+	cls, aux, ps, nt := 0, uint64(0), "None", 1
+	switch {
+	case err == nil:
+		ps = "(Some " + wire.VerifDumpTParams(p) + ")"
+	case err.Error() == "failed to read session ticket revision":
+		cls, nt = 1, 0
+	case strings.HasPrefix(err.Error(), "unknown session ticket revision: "):
+		cls = 2
+		fmt.Sscanf(err.Error(), "unknown session ticket revision: %d", &aux)
+	case strings.HasPrefix(err.Error(), "unmarshaling transport parameters from session ticket failed: "):
+		cls = 3
+	default:
+		cls = 99
+		g.monfail("tickets/errclass", "unclassified error: "+err.Error(), fmt.Sprintf("ticket=%x", b))
+	}
+	fmt.Fprintf(g.w, "CASE %d (TicketDec %s %d %d %s)\n", nt, u.Hex(b), cls, aux, ps)
+	g.dist["ticket-case:dec"]++
 }
 
 func (g *tkGen) ticketParams() *wire.TransportParameters {
@@ -331,6 +370,10 @@ func (g *tkGen) ticket(exhaustive bool) {
 			}
 		}()
 		enc = handshake.VerifTicketMarshal(p)
+		if g.dist["ticket-case:enc"] < g.tkMax/4 {
+			fmt.Fprintf(g.w, "CASE 1 (TicketEnc %s %s)\n", wire.VerifDumpTParams(p), u.Hex(enc))
+			g.dist["ticket-case:enc"]++
+		}
 	}()
 	if enc == nil {
 		return
@@ -454,7 +497,10 @@ func (g *tkGen) extras() {
 }
 
 func runTokens(w *bufio.Writer, seed uint64, n int, _ []string) {
-	g := &tkGen{w: w, r: u.NewRng(seed), dist: map[string]int{}, rd: &tpReader{}, info: map[string]int{}}
+	g := &tkGen{w: w, r: u.NewRng(seed), dist: map[string]int{}, rd: &tpReader{}, info: map[string]int{}, tkMax: 700}
+	if os.Getenv("VERIF_TIER") == "thorough" {
+		g.tkMax = 8000
+	}
 	old := rand.Reader
 	rand.Reader = io.Reader(g.rd)
 	defer func() { rand.Reader = old }()
